@@ -4,7 +4,7 @@ CONSTANTS
   Streams <- MCStreams
   Cuts <- MCCuts
   Progs <- MCProgs
-  LimitSet = {10}
+  LimitSet = {1, 10}
   Hist = 1
   Policy = "per_message"
 CONSTRAINT Emit
